@@ -10,6 +10,7 @@ package accountant
 
 import (
 	"context"
+	"sync"
 
 	"github.com/bartossh/Computantis/src/spice"
 	"github.com/bartossh/Computantis/src/transaction"
@@ -298,3 +299,40 @@ func vhTruncResubmit(pfx string) {
 	verifrt.Reach(pfx+"/end")
 }
 
+
+// VH_C07_concurrent_reader: balances read WHILE a truncation runs are the balances before (= after) it: the
+// checkpoint write and the removal of the moved vertices are one step for every other caller. All schedules
+// within one preemption (bounded search in quick).
+func VH_C07_concurrent_reader() {
+	l := vhGenesisLedger("A", spice.New(100, 0))
+	l.add(vhTransfer(1, "A", "B", spice.New(10, 0), nil, vhPeerAddr, 51), 0)
+	l.add(vhTransfer(2, "B", "C", spice.New(3, 0), nil, vhPeerAddr, 52), 1)
+	l.add(vhTransfer(3, "A", "C", spice.New(5, 0), nil, vhPeerAddr, 53), 2)
+	l.add(vhTransfer(4, "C", "A", spice.New(1, 0), nil, vhPeerAddr, 54), 3)
+	q := []string{"A", "B", "C"}[verifrt.Choose("query", 3)]
+	before, err := l.ab.CalculateBalance(context.Background(), q)
+	verifrt.Assert(err == nil, "C07/concurrent-reader/setup")
+	l.vhSetDepth(1 + verifrt.Choose("depth", 2))
+	verifrt.ExploreSchedules(1)
+	if !vhThorough() {
+		verifrt.SearchBudget(4000)
+	}
+	var wg sync.WaitGroup
+	var during Balance
+	var derr, terr error
+	wg.Add(2)
+	go func() {
+		defer wg.Done()
+		terr = l.ab.truncate(context.Background())
+	}()
+	go func() {
+		defer wg.Done()
+		during, derr = l.ab.CalculateBalance(context.Background(), q)
+	}()
+	wg.Wait()
+	verifrt.Assert(terr == nil, "C07/concurrent-reader/truncate-succeeds")
+	verifrt.Assert(derr == nil && during.Spice == before.Spice, "C07/concurrent-reader/balance-read-during-truncation-is-the-balance")
+	after, aerr := l.ab.CalculateBalance(context.Background(), q)
+	verifrt.Assert(aerr == nil && after.Spice == before.Spice, "C07/concurrent-reader/balance-after-truncation-is-the-balance")
+	verifrt.Reach("C07/concurrent-reader/end")
+}
